@@ -12,7 +12,7 @@ from harness.impl import gint, InjSystem, rand_intpt, quiet, mat_lit
 from harness.ref import ref_dynamics, mpo_transformed
 
 HEADER = """From Coq Require Import ZArith List Bool PrimFloat.
-From OQ Require Import Lib.RingSum Lib.Tensor Lib.Mat Lib.PyFloat Lib.PySem Model.PT Model.Control Model.Corr Model.Glue.
+From OQ Require Import Lib.RingSum Lib.Tensor Lib.Mat Lib.PyFloat Lib.PySem Model.PT Model.Control Model.Corr Model.BathTable Model.Glue.
 Import ListNotations. Open Scope Z_scope."""
 
 
@@ -103,7 +103,7 @@ def call_nt(sysm, pt, ops, specs, orders, rho0, start, dt=None):
                      ops_order=orders, initial_state=rho0, start_time=start, dt=dt, progress_type="silent")
 
 
-def bath_modes(chk, n):
+def bath_modes(chk, n, exprs=None, expected=None, meta=None):
     """pure-dephasing model: bath-mode occupations and two-time bath correlations derived from the system
     correlations against the displaced-oscillator (independent boson) closed form"""
     from oqupy.bath_dynamics import TwoTimeBathCorrelations
@@ -180,7 +180,8 @@ def bath_modes(chk, n):
             # every dagger pattern at equal AND at different frequencies, at different and at equal times
             pairs = [(w0, g0, w0, g0), (w0, g0, w_other, g_other)]
             tpairs = [(tl[sel], tl[-1]), (tl[-1], tl[-1])] if it % 2 == 0 else [(tl[sel], tl[-1]), (tl[sel], tl[sel])]
-            tpairs += [(tl[1], tl[-1]), (tl[1], tl[1])] if it % 3 == 0 else [(tl[1], tl[2])]      # regions of a single cell
+            # regions of a single cell; it == 1 (every run): the FIRST question to the fresh object is about the first time step only
+            tpairs += [(tl[1], tl[-1]), (tl[1], tl[1])] if (it % 3 == 0 or it == 1) else [(tl[1], tl[2])]
             if not occupation_first:
                 tpairs = sorted(tpairs, key=lambda p_: max(p_))
             for (wa, ga, wb, gb) in pairs:
@@ -200,9 +201,24 @@ def bath_modes(chk, n):
                                 ex = ex / ph
                         if not np.allclose(got, ex, rtol=1e-4, atol=1e-6):
                             bad = True
-                            info["first_bad"] = {"freq": [wa, wb], "times": [float(ta), float(tb_)], "dagg": list(dagg), "got": complex(got), "exact": complex(ex)}
+                            if "first_bad" not in info:
+                                info["first_bad"] = {"freq": [wa, wb], "times": [float(ta), float(tb_)], "dagg": list(dagg), "got": complex(got), "exact": complex(ex)}
             if not occupation_first:
                 bad = ask_occupation()[1] or bad
+            # the table of system correlations of a fresh object under a sequence of questions (Model/BathTable.v, theorem
+            # every_question_answerable): after every question its first dimension and the number of entries of its first row
+            if exprs is not None:
+                tb2 = TwoTimeBathCorrelations(sysm, bath, pt, initial_state=rho0.astype(complex))
+                dims = [1 if it % 2 == 1 else rng.randint(1, nst)] + [rng.randint(1, nst) for _ in range(3)]
+                seen = []
+                for q_, dm_ in enumerate(dims):
+                    quiet(tb2.correlation, w0, dt * max(dm_ - 1, 0), w0, dt * dm_, dagg=(1, 0), progress_type="silent")
+                    tab_ = np.asarray(tb2._system_correlations)
+                    seen += [int(tab_.shape[0]), int(np.sum(np.isfinite(tab_[0]))) if tab_.size else 0]
+                exprs.append("flat_map (fun k => let t := bt_run false (firstn k " + coq_list([str(x_) for x_ in dims]) + "%nat) in "
+                             "[Z.of_nat (rows t); Z.of_nat (filled t)]) (seq 1 " + str(len(dims)) + ")")
+                expected.append(seen)
+                meta.append({"kind": "bath-table", "question_dims": dims})
         except Exception as ex_:
             chk.fail("bath-modes-raise", f"TwoTimeBathCorrelations raises {ex_!r}", info)
             continue
@@ -415,7 +431,7 @@ def run(chk):
     except Exception:
         pass
 
-    bath_modes(chk, 10 if thorough else 3)
+    bath_modes(chk, 10 if thorough else 3, exprs, expected, meta)
 
     vals, errs = run_cases("C07", HEADER, exprs, chunk=120)
     for e in errs:
